@@ -51,11 +51,12 @@ Threads == {LOOP, OBS} \cup UNION {{Sub(j), Env(j), Can(j), Can2(j)} : j \in Job
 
 VARIABLES cfgScript, cfgS, cfgK, cfgK2, cfgC,
           pc, jobs, gate, evt, woken, melock, fst, dst, att, ljob, wt, wdl, edl, esleep, now,
+          lchk,      \* Bug = "done_check_before_locks" only: what future.done() answered BEFORE the locks were taken
           obs, viol, hist, actor
 
 cfg  == <<cfgScript, cfgS, cfgK, cfgK2, cfgC>>
 vars == <<cfgScript, cfgS, cfgK, cfgK2, cfgC, pc, jobs, gate, evt, woken, melock, fst, dst, att, ljob, wt, wdl,
-          edl, esleep, now, obs, viol, hist, actor>>
+          edl, esleep, now, lchk, obs, viol, hist, actor>>
 
 RECURSIVE Feed(_, _, _)
 Feed(o, v, evs) ==
@@ -79,7 +80,7 @@ Init ==
   /\ jobs = <<>> /\ gate = NoOne /\ evt = FALSE /\ woken = FALSE
   /\ melock = [j \in Jobs |-> NoOne]
   /\ fst = [j \in Jobs |-> "new"] /\ dst = [j \in Jobs |-> "none"] /\ att = [j \in Jobs |-> 0]
-  /\ ljob = NoJob /\ wt = -1 /\ wdl = -1
+  /\ lchk = FALSE /\ ljob = NoJob /\ wt = -1 /\ wdl = -1
   /\ edl = [j \in Jobs |-> -1] /\ esleep = [j \in Jobs |-> 0] /\ now = 0
   /\ obs = ObsNext(ObsInit, Ev("Cfg", "-", "main", 0, -1, MaxSleep, MaxAttempts, Sleep, Expo,
                               IF RetryOnValue THEN "custom" ELSE "exc", <<>>))
@@ -136,7 +137,7 @@ SSleep(j) ==
   /\ pc' = [pc EXCEPT ![Sub(j)] = "s_gate"]
   /\ Emit(<<E1("SubmitCall", "client", now, j)>>)
   /\ actor' = Sub(j)
-  /\ UNCHANGED <<cfg, jobs, gate, evt, woken, melock, fst, dst, att, ljob, wt, wdl, edl, esleep, now>>
+  /\ UNCHANGED <<lchk, cfg, jobs, gate, evt, woken, melock, fst, dst, att, ljob, wt, wdl, edl, esleep, now>>
 
 G_SGate(j) == pc[Sub(j)] = "s_gate" /\ gate = NoOne
 SGate(j) ==    \* with ensure_alive(): RetryFuture(self); job; _append_job -> executor._lock
@@ -145,7 +146,7 @@ SGate(j) ==    \* with ensure_alive(): RetryFuture(self); job; _append_job -> ex
   /\ fst' = [fst EXCEPT ![j] = "pending"]
   /\ pc' = [pc EXCEPT ![Sub(j)] = "s_lock"]
   /\ actor' = Sub(j) /\ NoEmit
-  /\ UNCHANGED <<cfg, jobs, evt, woken, melock, dst, att, ljob, wt, wdl, edl, esleep, now>>
+  /\ UNCHANGED <<lchk, cfg, jobs, evt, woken, melock, dst, att, ljob, wt, wdl, edl, esleep, now>>
 
 G_SLock(j) == pc[Sub(j)] = "s_lock"
 SLock(j) ==
@@ -153,7 +154,7 @@ SLock(j) ==
   /\ jobs' = Append(jobs, [f |-> j, d |-> FALSE, att |-> 0, when |-> now, stop |-> FALSE])
   /\ pc' = [pc EXCEPT ![Sub(j)] = "s_set"]
   /\ actor' = Sub(j) /\ NoEmit
-  /\ UNCHANGED <<cfg, gate, evt, woken, melock, fst, dst, att, ljob, wt, wdl, edl, esleep, now>>
+  /\ UNCHANGED <<lchk, cfg, gate, evt, woken, melock, fst, dst, att, ljob, wt, wdl, edl, esleep, now>>
 
 G_SSet(j) == pc[Sub(j)] = "s_set"
 SSet(j) ==
@@ -165,7 +166,7 @@ SSet(j) ==
                       ![Can2(j)] = IF cfgK2[j] < 90000 THEN "c_sleep" ELSE "c_never"]
   /\ Emit(<<E1("SubmitRet", "client", now, j)>>)
   /\ actor' = Sub(j)
-  /\ UNCHANGED <<cfg, jobs, melock, fst, dst, att, ljob, wt, wdl, edl, esleep, now>>
+  /\ UNCHANGED <<lchk, cfg, jobs, melock, fst, dst, att, ljob, wt, wdl, edl, esleep, now>>
 
 \* ------------------------------------------------------------------ the submit loop
 G_LGet == pc[LOOP] = "l_top"
@@ -183,6 +184,9 @@ LGet ==        \* with executor._lock: job = _get_next_job(); then branch
                             /\ pc' = [pc EXCEPT ![LOOP] = "l_sn"] /\ UNCHANGED wt
                        ELSE /\ pc' = [pc EXCEPT ![LOOP] = "l_sn_me"] /\ UNCHANGED <<wt, melock>>
                 ELSE /\ wt' = job.when - now /\ pc' = [pc EXCEPT ![LOOP] = "l_wait"] /\ UNCHANGED melock
+  \* seeded model bug (change C06-r3m1): _submit_now asks future.done() first, lock-free ("cancelled while queued: just
+  \* drop the job") and no longer under the locks
+  /\ lchk' = (NextJob # NoJob /\ fst[NextJob.f] # "pending")
   /\ actor' = LOOP /\ NoEmit
   /\ UNCHANGED <<cfg, jobs, gate, evt, woken, fst, dst, att, wdl, edl, esleep, now>>
 
@@ -192,14 +196,14 @@ LMe ==
   /\ melock' = [melock EXCEPT ![ljob.f] = LOOP]
   /\ pc' = [pc EXCEPT ![LOOP] = "l_sn"]
   /\ actor' = Silent /\ NoEmit
-  /\ UNCHANGED <<cfg, jobs, gate, evt, woken, fst, dst, att, ljob, wt, wdl, edl, esleep, now>>
+  /\ UNCHANGED <<lchk, cfg, jobs, gate, evt, woken, fst, dst, att, ljob, wt, wdl, edl, esleep, now>>
 
 G_LSubmitNow == pc[LOOP] = "l_sn"
 LSubmitNow ==  \* _submit_now: executor._lock; pop; done-check; delegate.submit; append running job
   /\ G_LSubmitNow /\ NU
   /\ LET j == ljob.f
          i == IdxOfRec(ljob)
-     IN IF fst[j] # "pending" \/ (Bug # "no_done_check" /\ FALSE)
+     IN IF (IF Bug = "done_check_before_locks" THEN lchk ELSE fst[j] # "pending")
           THEN /\ jobs' = Remove(jobs, i)
                /\ melock' = [melock EXCEPT ![j] = NoOne]
                /\ pc' = [pc EXCEPT ![LOOP] = "l_top"]
@@ -212,7 +216,7 @@ LSubmitNow ==  \* _submit_now: executor._lock; pop; done-check; delegate.submit;
                /\ pc' = [pc EXCEPT ![LOOP] = "l_sn_set", ![Env(j)] = "e_sleep"]
                /\ Emit(<<ES("DelegateSubmit", "retry", now, j, "tap")>>)
   /\ actor' = LOOP
-  /\ UNCHANGED <<cfg, gate, evt, woken, fst, ljob, wt, wdl, esleep, now>>
+  /\ UNCHANGED <<lchk, cfg, gate, evt, woken, fst, ljob, wt, wdl, esleep, now>>
 
 G_LSNSet == pc[LOOP] = "l_sn_set"
 LSNSet ==      \* delegate_future.add_done_callback(...); self._wake_thread()
@@ -220,7 +224,7 @@ LSNSet ==      \* delegate_future.add_done_callback(...); self._wake_thread()
   /\ SetEvent
   /\ pc' = [pc EXCEPT ![LOOP] = "l_top"]
   /\ actor' = LOOP /\ NoEmit
-  /\ UNCHANGED <<cfg, jobs, gate, melock, fst, dst, att, ljob, wt, wdl, edl, esleep, now>>
+  /\ UNCHANGED <<lchk, cfg, jobs, gate, melock, fst, dst, att, ljob, wt, wdl, edl, esleep, now>>
 
 G_LPopStop == pc[LOOP] = "l_popstop"
 LPopStop ==    \* "Discarding job due to cancel": _pop_job (executor._lock), then copy_future(old_delegate, future)
@@ -241,7 +245,7 @@ LPopStop ==    \* "Discarding job due to cancel": _pop_job (executor._lock), the
                  ELSE \* tolerant setter: nothing happens
                       /\ pc' = [pc EXCEPT ![LOOP] = "l_top"] /\ NoEmit /\ UNCHANGED fst
   /\ actor' = LOOP
-  /\ UNCHANGED <<cfg, gate, evt, woken, melock, dst, att, ljob, wt, wdl, edl, esleep, now>>
+  /\ UNCHANGED <<lchk, cfg, gate, evt, woken, melock, dst, att, ljob, wt, wdl, edl, esleep, now>>
 
 LTermMe ==     \* urgent: copy_future continues once the future's lock is free
   /\ G_LTermMe
@@ -253,7 +257,7 @@ LTermMe ==     \* urgent: copy_future continues once the future's lock is free
                 /\ Emit(<<Ev("ThreadExit", "-", "retry", now, -1, -1, 1, -1, -1, "loop", <<>>)>>)
            ELSE /\ pc' = [pc EXCEPT ![LOOP] = "l_top"] /\ NoEmit /\ UNCHANGED fst
   /\ actor' = Silent
-  /\ UNCHANGED <<cfg, jobs, gate, evt, woken, melock, dst, att, ljob, wt, wdl, edl, esleep, now>>
+  /\ UNCHANGED <<lchk, cfg, jobs, gate, evt, woken, melock, dst, att, ljob, wt, wdl, edl, esleep, now>>
 
 G_LEnter == pc[LOOP] = "l_wait"
 LEnter ==
@@ -261,7 +265,7 @@ LEnter ==
   /\ IF evt THEN /\ pc' = [pc EXCEPT ![LOOP] = "l_clear"] /\ UNCHANGED wdl
             ELSE /\ pc' = [pc EXCEPT ![LOOP] = "l_blocked"] /\ wdl' = IF wt >= 0 THEN now + wt + 1 ELSE -1
   /\ actor' = LOOP /\ NoEmit
-  /\ UNCHANGED <<cfg, jobs, gate, evt, woken, melock, fst, dst, att, ljob, wt, edl, esleep, now>>
+  /\ UNCHANGED <<lchk, cfg, jobs, gate, evt, woken, melock, fst, dst, att, ljob, wt, edl, esleep, now>>
 
 G_LWake == pc[LOOP] = "l_blocked" /\ (woken \/ (wdl >= 0 /\ now >= wdl))
 LWake ==
@@ -269,7 +273,7 @@ LWake ==
   /\ woken' = FALSE
   /\ pc' = [pc EXCEPT ![LOOP] = "l_clear"]
   /\ actor' = LOOP /\ NoEmit
-  /\ UNCHANGED <<cfg, jobs, gate, evt, melock, fst, dst, att, ljob, wt, wdl, edl, esleep, now>>
+  /\ UNCHANGED <<lchk, cfg, jobs, gate, evt, melock, fst, dst, att, ljob, wt, wdl, edl, esleep, now>>
 
 G_LClear == pc[LOOP] = "l_clear"
 LClear ==
@@ -277,7 +281,7 @@ LClear ==
   /\ evt' = FALSE
   /\ pc' = [pc EXCEPT ![LOOP] = "l_top"]
   /\ actor' = LOOP /\ NoEmit
-  /\ UNCHANGED <<cfg, jobs, gate, woken, melock, fst, dst, att, ljob, wt, wdl, edl, esleep, now>>
+  /\ UNCHANGED <<lchk, cfg, jobs, gate, woken, melock, fst, dst, att, ljob, wt, wdl, edl, esleep, now>>
 
 \* ------------------------------------------------------------------ the delegate's work and _delegate_callback
 G_EFinish(j) == pc[Env(j)] = "e_sleep" /\ now >= edl[j]
@@ -310,7 +314,7 @@ EFinish(j) ==
                                 /\ Emit(evs0 \o evsP \o (IF fst[j] = "pending" THEN ResolveEvents(j) ELSE <<>>) \o evsD)
                                 /\ UNCHANGED esleep
   /\ actor' = Env(j)
-  /\ UNCHANGED <<cfg, jobs, gate, evt, woken, melock, att, ljob, wt, wdl, edl, now>>
+  /\ UNCHANGED <<lchk, cfg, jobs, gate, evt, woken, melock, att, ljob, wt, wdl, edl, now>>
 
 ETermMe(j) ==  \* urgent
   /\ G_ETermMe(j)
@@ -318,7 +322,7 @@ ETermMe(j) ==  \* urgent
   /\ fst' = [fst EXCEPT ![j] = IF fst[j] = "pending" THEN "done" ELSE fst[j]]
   /\ IF fst[j] = "pending" THEN Emit(ResolveEvents(j)) ELSE NoEmit
   /\ actor' = Silent
-  /\ UNCHANGED <<cfg, jobs, gate, evt, woken, melock, dst, att, ljob, wt, wdl, edl, esleep, now>>
+  /\ UNCHANGED <<lchk, cfg, jobs, gate, evt, woken, melock, dst, att, ljob, wt, wdl, edl, esleep, now>>
 
 G_ERetry(j) == pc[Env(j)] = "e_retry"
 ERetry(j) ==   \* _retry: with executor._lock: pop the running job, append the waiting one (stop_retry inherited)
@@ -329,7 +333,7 @@ ERetry(j) ==   \* _retry: with executor._lock: pop the running job, append the w
                        stop |-> IF Bug = "no_inherit" THEN FALSE ELSE (i # 0 /\ jobs[i].stop)])
   /\ pc' = [pc EXCEPT ![Env(j)] = "e_rset"]
   /\ actor' = Env(j) /\ NoEmit
-  /\ UNCHANGED <<cfg, gate, evt, woken, melock, fst, dst, att, ljob, wt, wdl, edl, esleep, now>>
+  /\ UNCHANGED <<lchk, cfg, gate, evt, woken, melock, fst, dst, att, ljob, wt, wdl, edl, esleep, now>>
 
 G_ERSet(j) == pc[Env(j)] = "e_rset"
 ERSet(j) ==
@@ -337,7 +341,7 @@ ERSet(j) ==
   /\ IF Bug = "no_wake_on_retry" THEN UNCHANGED <<evt, woken>> ELSE SetEvent
   /\ pc' = [pc EXCEPT ![Env(j)] = "e_idle"]
   /\ actor' = Env(j) /\ NoEmit
-  /\ UNCHANGED <<cfg, jobs, gate, melock, fst, dst, att, ljob, wt, wdl, edl, esleep, now>>
+  /\ UNCHANGED <<lchk, cfg, jobs, gate, melock, fst, dst, att, ljob, wt, wdl, edl, esleep, now>>
 
 G_EPop(j) == pc[Env(j)] = "e_pop"
 EPop(j) ==     \* _pop_job(found_job)
@@ -345,7 +349,7 @@ EPop(j) ==     \* _pop_job(found_job)
   /\ jobs' = Remove(jobs, IdxOf(j, TRUE))
   /\ pc' = [pc EXCEPT ![Env(j)] = "e_idle"]
   /\ actor' = Env(j) /\ NoEmit
-  /\ UNCHANGED <<cfg, gate, evt, woken, melock, fst, dst, att, ljob, wt, wdl, edl, esleep, now>>
+  /\ UNCHANGED <<lchk, cfg, gate, evt, woken, melock, fst, dst, att, ljob, wt, wdl, edl, esleep, now>>
 
 \* ------------------------------------------------------------------ cancel()   (c = Can(j) or Can2(j))
 KOf(c) == IF c[1] = "can" THEN cfgK[c[2]] ELSE cfgK2[c[2]]
@@ -372,13 +376,13 @@ CStart(c) ==
           THEN /\ pc' = [pc EXCEPT ![c] = "c_me"] /\ Emit(pre) /\ UNCHANGED melock
           ELSE CancelBody(c, pre)
   /\ actor' = c
-  /\ UNCHANGED <<cfg, jobs, gate, evt, woken, fst, dst, att, ljob, wt, wdl, edl, esleep, now>>
+  /\ UNCHANGED <<lchk, cfg, jobs, gate, evt, woken, fst, dst, att, ljob, wt, wdl, edl, esleep, now>>
 
 CMe(c) ==      \* urgent
   /\ G_CMe(c)
   /\ CancelBody(c, <<>>)
   /\ actor' = Silent
-  /\ UNCHANGED <<cfg, jobs, gate, evt, woken, fst, dst, att, ljob, wt, wdl, edl, esleep, now>>
+  /\ UNCHANGED <<lchk, cfg, jobs, gate, evt, woken, fst, dst, att, ljob, wt, wdl, edl, esleep, now>>
 
 G_CLock(c) == pc[c] = "c_lock"
 CLock(c) ==    \* executor._cancel(future): with executor._lock: find the job ...
@@ -403,21 +407,33 @@ CLock(c) ==    \* executor._cancel(future): with executor._lock: find the job ..
                            ESA("Observed", "canceller", now, j, "CANCELLED_AND_NOTIFIED", -1, -1)>>)
                  /\ UNCHANGED dst
             ELSE \* running attempt: stop_retry, then try to cancel the delegate future
-                 /\ jobs' = IF cfgC[j] /\ dst[j] = "running" /\ ~AsShipped_D8
-                              THEN Remove(jobs, i)     \* the cancelled delegate's callback pops the job (commit 4328398)
-                              ELSE [jobs EXCEPT ![i].stop = TRUE]
+                 /\ jobs' = [jobs EXCEPT ![i].stop = TRUE]
                  /\ IF cfgC[j] /\ dst[j] = "running"
-                      THEN /\ dst' = [dst EXCEPT ![j] = "cancelled"]
-                           /\ fst' = [fst EXCEPT ![j] = "cancelled"]
-                           /\ melock' = [melock EXCEPT ![j] = NoOne]
-                           /\ pc' = [pc EXCEPT ![c] = "done"]
-                           /\ Emit(<<E2("CancelRet", "canceller", now, j, 1),
-                                     ESA("Observed", "canceller", now, j, "CANCELLED_AND_NOTIFIED", -1, -1),
-                                     ES("DelegateState", "canceller", now, j, "CANCELLED")>>)
+                      THEN \* delegate_future.cancel() succeeds; its done-callback (_delegate_callback) goes for
+                           \* executor._lock to pop the job: next visible operation, still inside cancel()
+                           /\ dst' = [dst EXCEPT ![j] = "cancelled"]
+                           /\ pc' = [pc EXCEPT ![c] = "c_pop"]
+                           /\ Emit(<<ES("DelegateState", "canceller", now, j, "CANCELLED")>>)
+                           /\ UNCHANGED <<fst, melock>>
                       ELSE /\ pc' = [pc EXCEPT ![c] = "c_wake"]
                            /\ NoEmit /\ UNCHANGED <<dst, fst, melock>>
   /\ actor' = c
-  /\ UNCHANGED <<cfg, gate, evt, woken, att, ljob, wt, wdl, edl, esleep, now>>
+  /\ UNCHANGED <<lchk, cfg, gate, evt, woken, att, ljob, wt, wdl, edl, esleep, now>>
+
+G_CPop(c) == pc[c] = "c_pop"
+CPop(c) ==     \* the cancelled delegate's callback: _pop_job (commit 4328398; as shipped the stale job stayed); then
+               \* cancel() finishes: the future is cancelled, its callbacks run, True is returned
+  /\ G_CPop(c) /\ NU
+  /\ LET j == c[2]
+         i == IdxOf(j, TRUE)
+     IN /\ jobs' = IF AsShipped_D8 THEN jobs ELSE Remove(jobs, i)
+        /\ fst' = [fst EXCEPT ![j] = "cancelled"]
+        /\ melock' = [melock EXCEPT ![j] = NoOne]
+        /\ pc' = [pc EXCEPT ![c] = "done"]
+        /\ Emit(<<E2("CancelRet", "canceller", now, j, 1),
+                  ESA("Observed", "canceller", now, j, "CANCELLED_AND_NOTIFIED", -1, -1)>>)
+  /\ actor' = c
+  /\ UNCHANGED <<lchk, cfg, gate, evt, woken, dst, att, ljob, wt, wdl, edl, esleep, now>>
 
 G_CWake(c) == pc[c] = "c_wake"
 CWake(c) ==    \* could not cancel: self._wake_thread(); return False
@@ -427,7 +443,7 @@ CWake(c) ==    \* could not cancel: self._wake_thread(); return False
   /\ pc' = [pc EXCEPT ![c] = "done"]
   /\ Emit(<<E2("CancelRet", "canceller", now, c[2], 0)>>)
   /\ actor' = c
-  /\ UNCHANGED <<cfg, jobs, gate, fst, dst, att, ljob, wt, wdl, edl, esleep, now>>
+  /\ UNCHANGED <<lchk, cfg, jobs, gate, fst, dst, att, ljob, wt, wdl, edl, esleep, now>>
 
 \* ------------------------------------------------------------------ observer, time
 G_OEnd == pc[OBS] = "o_sleep" /\ now >= Horizon
@@ -436,7 +452,7 @@ OEnd ==
   /\ pc' = [pc EXCEPT ![OBS] = "done"]
   /\ Emit(<<E0("End", "main", now)>>)
   /\ actor' = OBS
-  /\ UNCHANGED <<cfg, jobs, gate, evt, woken, melock, fst, dst, att, ljob, wt, wdl, edl, esleep, now>>
+  /\ UNCHANGED <<lchk, cfg, jobs, gate, evt, woken, melock, fst, dst, att, ljob, wt, wdl, edl, esleep, now>>
 
 Urgent == LMe \/ LTermMe \/ (\E j \in Jobs : ETermMe(j)) \/ (\E c \in Cans : CMe(c))
 
@@ -444,7 +460,7 @@ AnyEnabled ==
   \/ UrgentEnabled
   \/ \E j \in Jobs : \/ G_SSleep(j) \/ G_SGate(j) \/ G_SLock(j) \/ G_SSet(j)
                      \/ G_EFinish(j) \/ G_ERetry(j) \/ G_ERSet(j) \/ G_EPop(j)
-  \/ \E c \in Cans : G_CStart(c) \/ G_CLock(c) \/ G_CWake(c)
+  \/ \E c \in Cans : G_CStart(c) \/ G_CLock(c) \/ G_CPop(c) \/ G_CWake(c)
   \/ G_LGet \/ G_LSubmitNow \/ G_LSNSet \/ G_LPopStop \/ G_LEnter \/ G_LWake \/ G_LClear \/ G_OEnd
 
 Deadlines ==
@@ -458,12 +474,12 @@ Tick ==
   /\ ~AnyEnabled /\ Deadlines # {}
   /\ now' = CHOOSE d \in Deadlines : \A x \in Deadlines : d <= x
   /\ actor' = <<"tick", 0>>
-  /\ UNCHANGED <<cfg, pc, jobs, gate, evt, woken, melock, fst, dst, att, ljob, wt, wdl, edl, esleep, obs, viol, hist>>
+  /\ UNCHANGED <<lchk, cfg, pc, jobs, gate, evt, woken, melock, fst, dst, att, ljob, wt, wdl, edl, esleep, obs, viol, hist>>
 
 Normal ==
   \/ \E j \in Jobs : \/ SSleep(j) \/ SGate(j) \/ SLock(j) \/ SSet(j)
                      \/ EFinish(j) \/ ERetry(j) \/ ERSet(j) \/ EPop(j)
-  \/ \E c \in Cans : CStart(c) \/ CLock(c) \/ CWake(c)
+  \/ \E c \in Cans : CStart(c) \/ CLock(c) \/ CPop(c) \/ CWake(c)
   \/ LGet \/ LSubmitNow \/ LSNSet \/ LPopStop \/ LEnter \/ LWake \/ LClear \/ OEnd \/ Tick
 
 Next == Urgent \/ Normal
@@ -478,5 +494,6 @@ NoStaleJobAtEnd == pc[OBS] = "done" => \A i \in DOMAIN jobs : fst[jobs[i].f] = "
 \* lost wake-up: the loop blocks without timer although a job without delegate is waiting to be handled
 NoLostWakeup == ~(pc[LOOP] = "l_blocked" /\ wdl = -1 /\ ~woken /\ ~AnyEnabled /\ Cand # <<>>)
 StopAtHorizon == now <= Horizon
-View == <<cfg, pc, jobs, gate, evt, woken, melock, fst, dst, att, ljob, wt, wdl, edl, esleep, now, obs, viol>>
+View == <<cfg, pc, jobs, gate, evt, woken, melock, fst, dst, att, ljob, wt, wdl, edl, esleep, now, obs, viol,
+          IF Bug = "done_check_before_locks" THEN lchk ELSE FALSE>>
 =============================================================================
